@@ -4,8 +4,9 @@ DECRYPT_MODEL = ["Base", "Time", "Xml", "Ns", "SchemaDefs", "Schema", "Types", "
 
 PROPS = {
     "C09": dict(
-        model_files=DECRYPT_MODEL + ["Deflate", "GenPreludeD", "GenPreludeT", "GenPreludeDeflate", "GenDeflate", "P_GenDeflate"],
+        model_files=DECRYPT_MODEL + ["Deflate", "GenPreludeD", "GenPreludeT", "GenPreludeDeflate", "GenDeflate", "P_GenDeflate", "XmlNameTables", "XmlTok", "P_XmlTok"],
         trusted_base=[KERNEL, GEN, HARNESS,
+                      "hand-written model XmlTok.v of the byte -> token -> tree step: encoding/xml (go1.24.0) Decoder.RawToken as etree v1.5.0 configures it (Strict, pass-through CharsetReader, no Entity map, no AutoClose) incl. isName with the two unicode range tables (XmlNameTables.v, transcribed from xml.go by tools/mkxmlnames.py; every table boundary is re-derived from the REAL decoder on each C09 run), entity expansion, CR / CRLF handling, the ]]> rule, UTF-8 and Char-range checks after expansion, <?xml?> version / encoding checks (procInst), directive scanning with quotes / nesting / comments; etree Element.readFrom (stack of open elements, end-tag check by (Space, Local), one CharData child per token - v1.5.0 does not merge -, attribute de-duplication unless PreserveDuplicateAttrs, Root() = first top-level element); token_view = what the Token() loop of xml.Unmarshal consumes (nesting check, stops at the end tag of the first element, NO CharsetReader). Nothing is outside_model. Tied to the real libraries by the xmltok stream (fixed cases, table boundaries, documents presented by the other streams, builder outputs, truncations / bit flips, grammar-based generator): token lists compared exactly, trees by node equality",
                       "hand-written model Decrypt.v (decrypt_symmetric_key, decrypt_bytes, decrypt_assertions_o with explicit OPanic at every slice / index / nil dereference / panic() of types/encrypted_key.go, types/encrypted_assertion.go and decode_response.go decryptAssertions) tied to the code by the DecryptBytes correspondence run (bytes / error label / panic compared on every case)",
                       "switch case lists of DecryptBytes / DecryptSymmetricKey re-extracted from the source by gen/ (decrypt_bytes_cases, key_transport_cases, key_digest_cases)",
                       "Escape.base64_decode as model of base64.StdEncoding.DecodeString (differentially tested against Go by the escape checks)",
@@ -15,7 +16,8 @@ PROPS = {
                      "DecryptBytes / DecryptSymmetricKey are total for every NON-NIL *tls.Certificate (a nil certificate is a caller error and does panic: modelled, getDecryptCert never passes nil)",
                      "the private key is either a usable *rsa.PrivateKey or of another dynamic type (nil included); a typed-nil or malformed *rsa.PrivateKey (panics inside crypto/rsa) is a configuration error outside the model",
                      "decryptAssertions is panic-free when the start element has a parent (both call sites pass the root element of an etree.Document)",
-                     "the tree-level entry points of Response.v return res by construction (C09_entry_points_return_result_xor_error carries no more weight than that); panics INSIDE encoding/xml, etree, compress/flate, goxmldsig, xml-roundtrip-validator and crypto/* are outside the model: the truncation / bit-flip / deep / wide sweeps through the six real entry points are a search, not a proof",
+                     "the tree-level entry points of Response.v return res by construction (C09_entry_points_return_result_xor_error carries no more weight than that); panics INSIDE compress/flate, goxmldsig, xml-roundtrip-validator and crypto/* are outside the model: the truncation / bit-flip / deep / wide sweeps through the six real entry points are a search, not a proof",
+                     "moved from oracle to model: the XML tokenizer and etree's tree building (C09_tokenizer_total: a structural recursion, one step per byte, at most 2|s|+1 tokens, only error syntax_error; Ok-or-Err itself holds by typing). The model says what RawToken / readFrom RETURN; that the Go code computing it does not panic or exhaust memory on the way is still covered by the sweeps only. STILL oracle in the translated front end (GenDeflate / P_Pipeline): read_from_bytes, rt_ok (xml-roundtrip-validator) and inflate are Section variables - the instantiation of read_from_bytes with XmlTok.read_root has not been composed into those theorems",
                      "the capacity of the slice returned by base64 decoding is not modelled: the model's guard for data[:n] is n <= len(data), which is at least as strict as Go's n <= cap(data)"],
     ),
     "C11": dict(
